@@ -46,16 +46,43 @@ def cfg_text(sc, sw, interrupts=True, max_steps=8, mbt=False, revert=True):
     else:
         lines += ["INIT Init", "NEXT Next", "VIEW view",
                   "INVARIANTS TypeOK NoUnderflow FloorBound AgeBound RetainedIntact StateReadsCorrect BelowFloorClean",
-                  "PROPERTIES Resumable FloorMonotone"]
+                  "PROPERTIES Resumable FloorMonotone RestartIsNoOp"]
     lines.append("CHECK_DEADLOCK FALSE")
     return "\n".join(lines) + "\n", dict(c)
 
 
+# specification switch -> key of the confirmed defect it models
+DEFECT_KEYS = {
+    "FixPruneAtomicFloor": "prune-crash:floor-reseed-below-deleted-history",
+    "FixSampleOnReorg": "min-age:young-block-pruned-after-reorg-below-sample",
+}
+
+
 def engine(ctx, binary, test, payload, timeout=3000):
+    """Run an engine test with a deadline shorter than the driver's timeout (a hang still delivers
+    what was recorded). A machinery error is exit 2 only if no divergence was recorded before it."""
+    payload = dict(payload, deadlineSec=max(60, timeout - 120))
     res = ctx.run_engine(binary, test, payload, timeout=timeout)
-    if res.get("stats", {}).get("machinery_error"):
-        raise vlib.Broken("engine %s: %s\n%s" % (test, res["stats"]["machinery_error"], res.get("_stdout", "")[-2000:]))
+    err = res.get("stats", {}).pop("machinery_error", None)
+    if err:
+        if not res.get("divergences"):
+            raise vlib.Broken("engine %s: %s\n%s" % (test, err, res.get("_stdout", "")[-2000:]))
+        vlib.log("engine %s stopped early (%s) after recording %d divergences" % (test, err, len(res["divergences"])))
     return res
+
+
+def model_switches(ctx, probe_stats):
+    """Expectations come from known_findings.json: a defect is modelled as present (switch FALSE)
+    only if its key is listed `known` for this property AND its directed replay reproduces it;
+    listed `fixed` or not listed => repaired model (a returning defect departs from it = VIOLATION)."""
+    sw = {}
+    for s, key in DEFECT_KEYS.items():
+        listed = any(k["status"] == "known" and vlib.key_matches(k["key"], key) for k in ctx.known)
+        reproduces = probe_stats.get(s) is False or probe_stats.get(s) == 0
+        sw[s] = not (listed and reproduces)
+        if listed and not reproduces:
+            print("NOTE: property=%s known finding %s did not reproduce on this tree" % (ctx.prop, key), flush=True)
+    return sw
 
 
 def run(ctx):
@@ -69,49 +96,56 @@ def run(ctx):
 
     thorough = not ctx.quick()
     probe = engine(ctx, binary, "TestPruneProbe", {}, timeout=600)
+    pstats = dict(probe.get("stats", {}))
     ctx.absorb(probe, "prune", "TestPruneProbe")   # directed replays of the confirmed defects
-    faithful = {k: bool(probe.get("stats", {}).get(k, False)) for k in ("FixPruneAtomicFloor", "FixSampleOnReorg")}
+    faithful = model_switches(ctx, pstats)
     repaired = {k: True for k in faithful}
-    fixed = faithful["FixPruneAtomicFloor"]
-    ctx.coverage["switches_probed_on_code"] = faithful
-    vlib.log("switches probed on the real code: %s" % faithful)
+    ctx.coverage["model_switches"] = faithful
+    vlib.log("model switches (from known_findings.json; FALSE = listed known and reproduced): %s" % faithful)
 
     # ---- 1. TLC on the specification (repaired design)
     ctx.tlc_check("chain", "MCPrune.tla", "Prune_quick.cfg", timeout=900)
     ctx.tlc_check("chain", "MCPrune.tla", "Prune_quick_r0.cfg", timeout=900)
+    cov = None
     if thorough:
         for cfg in ("Prune_thorough.cfg", "Prune_thorough_r0.cfg", "Prune_thorough_r3.cfg", "Prune_thorough_r20.cfg"):
             r = ctx.tlc_check("chain", "MCPrune.tla", cfg, timeout=3000, coverage=(cfg == "Prune_thorough.cfg"))
             if cfg == "Prune_thorough.cfg":
-                vlib.require_actions_covered(r)
-    if thorough:
-        for wname in ("NeverCancelledMidSweep", "NeverCrashedMidSweep", "NeverHeaderPruned", "NeverTimeFloorBinds",
-                      "NeverL2PathPrunes"):
-            txt, _ = cfg_text("r1", repaired, max_steps=6)
-            if wname == "NeverTimeFloorBinds":
-                # needs young blocks below an L1 head that is below the local head: a shorter old chain
-                txt = txt.replace("InitH = 11", "InitH = 9")
-            # no VIEW here: the witnesses speak about act/res, which the view hides
-            txt = txt.split("INVARIANTS")[0].replace("VIEW view\n", "") + "INVARIANTS %s\nCHECK_DEADLOCK FALSE\n" % wname
-            r = ctx.tlc_check("chain", "MCPrune.tla", "witness.cfg", files={"witness.cfg": txt}, timeout=900,
-                              expect_violation=True, label="witness " + wname)
+                cov = r
+
+    def self_checks():
+        """Vacuity and model self-checks; run AFTER the engines so that they cannot turn a violation
+        observed on the code into exit 2."""
+        if cov is not None:
+            vlib.require_actions_covered(cov)
+        if thorough:
+            for wname in ("NeverCancelledMidSweep", "NeverCrashedMidSweep", "NeverHeaderPruned", "NeverTimeFloorBinds",
+                          "NeverL2PathPrunes"):
+                txt, _ = cfg_text("r1", repaired, max_steps=6)
+                if wname == "NeverTimeFloorBinds":
+                    # needs young blocks below an L1 head that is below the local head: a shorter old chain
+                    txt = txt.replace("InitH = 11", "InitH = 9")
+                # no VIEW here: the witnesses speak about act/res, which the view hides
+                txt = txt.split("INVARIANTS")[0].replace("VIEW view\n", "") + "INVARIANTS %s\nCHECK_DEADLOCK FALSE\n" % wname
+                r = ctx.tlc_check("chain", "MCPrune.tla", "witness.cfg", files={"witness.cfg": txt}, timeout=900,
+                                  expect_violation=True, label="witness " + wname)
+                if r["ok"]:
+                    raise vlib.Broken("vacuity: %s is never violated, i.e. the situation is unreachable in the model" % wname)
+        # the model with a listed-known defect switched on must exhibit it
+        if not faithful["FixPruneAtomicFloor"]:
+            txt, _ = cfg_text("r1", dict(repaired, FixPruneAtomicFloor=False), max_steps=5)
+            r = ctx.tlc_check("chain", "MCPrune.tla", "faithful.cfg", files={"faithful.cfg": txt}, timeout=900,
+                              expect_violation=True, label="model with H12 (expected to violate)")
             if r["ok"]:
-                raise vlib.Broken("vacuity: %s is never violated, i.e. the situation is unreachable in the model" % wname)
-    # the faithful model must exhibit each defect the directed replays saw on the code
-    if not fixed:
-        txt, _ = cfg_text("r1", dict(repaired, FixPruneAtomicFloor=False), max_steps=5)
-        r = ctx.tlc_check("chain", "MCPrune.tla", "faithful.cfg", files={"faithful.cfg": txt}, timeout=900,
-                          expect_violation=True, label="faithful model, H12 (expected to violate)")
-        if r["ok"]:
-            raise vlib.Broken("the faithful model satisfies every invariant although the probe found H12 on the code")
-        ctx.coverage["faithful_model_violates_h12"] = r["violated"]
-    if not faithful["FixSampleOnReorg"]:
-        txt, _ = cfg_text("r1", dict(repaired, FixSampleOnReorg=False), max_steps=8)
-        r = ctx.tlc_check("chain", "MCPrune.tla", "faithful2.cfg", files={"faithful2.cfg": txt}, timeout=1500,
-                          expect_violation=True, label="faithful model, min-age sample (expected to violate)")
-        if r["ok"] or r["violated"] != "AgeBound":
-            raise vlib.Broken("the faithful model does not violate AgeBound although the probe pruned a young block on the code")
-        ctx.coverage["faithful_model_violates_age"] = r["violated"]
+                raise vlib.Broken("the model with FixPruneAtomicFloor = FALSE satisfies every invariant")
+            ctx.coverage["faithful_model_violates_h12"] = r["violated"]
+        if not faithful["FixSampleOnReorg"]:
+            txt, _ = cfg_text("r1", dict(repaired, FixSampleOnReorg=False), max_steps=8)
+            r = ctx.tlc_check("chain", "MCPrune.tla", "faithful2.cfg", files={"faithful2.cfg": txt}, timeout=1500,
+                              expect_violation=True, label="model with the min-age sample defect (expected to violate)")
+            if r["ok"] or r["violated"] != "AgeBound":
+                raise vlib.Broken("the model with FixSampleOnReorg = FALSE does not violate AgeBound")
+            ctx.coverage["faithful_model_violates_age"] = r["violated"]
 
     # ---- 2./3. binding
     new_state = [False, True]
@@ -150,6 +184,15 @@ def run(ctx):
                              {"consts": c, "behaviours": part, "newState": new_state, "backends": [be]}, timeout=3000)
                 ctx.absorb(res, "prune", "TestPruneEnum")
                 vlib.log("engine TestPruneEnum %s %s: %d sequences, %.0fs" % (sc, be, len(part), res["_wall_s"]))
+    res = engine(ctx, binary, "TestPruneConcurrent", {"newState": [False, True]}, timeout=1500)
+    ctx.absorb(res, "prune", "TestPruneConcurrent")
+    vlib.log("engine TestPruneConcurrent: %s reads in %s rounds, %.0fs" % (
+        res.get("stats", {}).get("concurrent_reads"), res.get("stats", {}).get("concurrent_rounds"), res["_wall_s"]))
+    try:
+        self_checks()
+    except vlib.Broken:
+        if not ctx.violations:
+            raise
     ctx.coverage["behaviours_conformance"] = total_conf
     ctx.coverage["sequences_interruption_enumerated"] = total_enum
     ctx.assumptions += [
